@@ -661,6 +661,8 @@ def acl_st(draw, platform=None, min_items=0, max_items=12, kmax=3, groups=False,
                         rec[side] = dict(rec[side], v=rec[side]["v"][:1], nm=rec[side]["nm"][:1])
             if native:
                 it["rec"] = to_native(rec, platform)
+    if members:
+        normalise_groups(items)
     mode = draw(st.sampled_from(["none", "none", "all", "some", "wild"])) if seqs else "none"
     if mode != "none":
         cur = draw(st.sampled_from([1, 5, 10, 100]))
@@ -686,6 +688,36 @@ def strip_members(rec: dict) -> dict:
         if rec[side]["k"] == "group":
             out[side] = dict(rec[side], m=[])
     return out
+
+
+def normalise_groups(items) -> None:
+    """One group name <-> one member list inside an ACL program (a group is a named object; the ACL text
+    only carries the name). Names are assigned per distinct member list."""
+    names = {}
+    for it in items:
+        if it["t"] != "ace":
+            continue
+        for side in ("src", "dst"):
+            a = it["rec"][side]
+            if a["k"] == "group":
+                key = tuple(tuple(m) for m in a.get("m") or [])
+                if key not in names:
+                    names[key] = f"G{len(names) + 1}"
+                it["rec"][side] = dict(a, n=names[key])
+
+
+def groups_consistent(items) -> bool:
+    seen = {}
+    for it in items:
+        if it["t"] != "ace":
+            continue
+        for side in ("src", "dst"):
+            a = it["rec"][side]
+            if a["k"] == "group":
+                key = tuple(tuple(m) for m in a.get("m") or [])
+                if seen.setdefault(a["n"], key) != key:
+                    return False
+    return True
 
 
 def flat_meaning(case):
